@@ -263,6 +263,8 @@ impl Model {
         match &n.rk {
             RK::MapRef { src, proj } => match self.val(*src) {
                 Some(MV::P(a, b)) => Some(MV::I(if *proj == 0 { a } else { b })),
+                // proj 2: the identity view of a scalar node
+                Some(MV::I(x)) if *proj == 2 => Some(MV::I(x)),
                 _ => None,
             },
             RK::MapRefQ { src } => match self.val(*src) {
@@ -490,6 +492,7 @@ impl Model {
             RK::Zip { a, b } => MV::P(i(*a)?, i(*b)?),
             RK::MapRef { src, proj } => match self.scratch(*src, depth + 1)? {
                 MV::P(a, b) => MV::I(if *proj == 0 { a } else { b }),
+                MV::I(x) if *proj == 2 => MV::I(x),
                 _ => return None,
             },
             RK::ZipQ { a, b } => match self.scratch(*a, depth + 1)? {
@@ -540,7 +543,13 @@ impl Model {
             BodyExpr::NewVar { v, .. } => norm(*v + l),
             BodyExpr::Ref(e, proj) => {
                 let x = self.scratch_body(e, l, cx, depth + 1)?;
-                if *proj % 2 == 0 { x.rem_euclid(3) } else { x.div_euclid(2) }
+                if *proj == 2 {
+                    x
+                } else if *proj % 2 == 0 {
+                    x.rem_euclid(3)
+                } else {
+                    x.div_euclid(2)
+                }
             }
             BodyExpr::WithOld(e, f) => f.ap(self.scratch_body(e, l, cx, depth + 1)?),
             BodyExpr::Map(e, f) | BodyExpr::MapVia(e, f, _) => f.ap(l, self.scratch_body(e, l, cx, depth + 1)?),
